@@ -86,6 +86,13 @@ Proof. reflexivity. Qed.
 (* ------------------------------------------------------------------ *)
 (* 1. fenced code: the closing fence is found, and nothing before it     *)
 
+Lemma marker_line (m : N) p k rest : m = 96 \/ m = 126 -> forallb is_ws p = true -> (1 <= k)%nat ->
+  mk_line (p ++ repeatN m k ++ rest) = LRec (p ++ repeatN m k ++ rest) (len p) (Z.of_N (cols_from 0 p)).
+Proof.
+  intros Hm Hp Hk. destruct k as [|k]; [lia|]. cbn [repeatN app]. apply mk_line_nonblank; [exact Hp|].
+  destruct Hm; subst m; reflexivity.
+Qed.
+
 Section Fence.
 Variable cfg : bcfg.
 Variable st : bstate.
@@ -345,3 +352,297 @@ Proof.
 Qed.
 
 End Indented.
+
+(* ------------------------------------------------------------------ *)
+(* 3. code span: the closing run is found, and nothing before it         *)
+
+(* every run of m in s is shorter than n (count_run is the inline rules' name for count_prefix) *)
+Fixpoint iruns_lt (m n : N) (s : str) : bool :=
+  match s with [] => true | _ :: t => (count_run m s <? n) && iruns_lt m n t end.
+
+Lemma iruns_lt_suffix m n a b : iruns_lt m n (a ++ b) = true -> iruns_lt m n b = true.
+Proof.
+  induction a as [|x a IH]; intros H; [exact H|].
+  cbn [app iruns_lt] in H. apply andb_true_iff in H. destruct H as [_ H]. apply IH; assumption.
+Qed.
+
+Lemma count_run_repeat m k rest : match rest with x :: _ => (x =? m) = false | [] => True end ->
+  count_run m (repeatN m k ++ rest) = N.of_nat k.
+Proof.
+  intros Hr. induction k as [|k IH].
+  - cbn [repeatN app]. destruct rest as [|x r]; [reflexivity|]. cbn [count_run]. rewrite Hr. reflexivity.
+  - cbn [repeatN app count_run]. rewrite N.eqb_refl, IH. lia.
+Qed.
+
+(* s = the run at its head, then a byte that is not the marker (or nothing) *)
+Lemma count_run_split m s : exists r, s = repeatN m (N.to_nat (count_run m s)) ++ r /\
+  match r with x :: _ => (x =? m) = false | [] => True end.
+Proof.
+  induction s as [|x s (r & Hs & Hr)].
+  - exists []. split; [reflexivity|exact I].
+  - cbn [count_run]. destruct (x =? m) eqn:E.
+    + assert (x = m) by lia. subst x. exists r. split; [|exact Hr].
+      replace (N.to_nat (1 + count_run m s)) with (S (N.to_nat (count_run m s))) by lia. cbn [repeatN app]. f_equal. exact Hs.
+    + exists (x :: s). split; [reflexivity|exact E].
+Qed.
+
+Definition last_not (m : N) (s : str) : Prop := match rev s with x :: _ => (x =? m) = false | [] => True end.
+
+Lemma last_not_suffix m a b : b <> [] -> last_not m (a ++ b) -> last_not m b.
+Proof.
+  unfold last_not. rewrite rev_app_distr. intros Hb H. destruct (rev b) as [|y rb] eqn:E.
+  - exfalso. apply Hb. apply (f_equal (@rev N)) in E. rewrite rev_involutive in E. exact E.
+  - exact H.
+Qed.
+
+(* a run inside s cannot merge with what follows s when s does not end with the marker *)
+Lemma count_run_app m s r : s <> [] -> last_not m s -> count_run m (s ++ r) = count_run m s /\ count_run m s < len s.
+Proof.
+  induction s as [|x s IH]; intros Hne Hl; [congruence|].
+  cbn [app count_run]. destruct (x =? m) eqn:E.
+  - destruct s as [|y s'].
+    + exfalso. unfold last_not in Hl. cbn in Hl. congruence.
+    + destruct IH as [IH1 IH2]; [discriminate|apply (last_not_suffix m [x]); [discriminate|exact Hl]|].
+      rewrite IH1. split; [reflexivity|]. unfold len in *. cbn [length] in *. lia.
+  - split; [reflexivity|]. unfold len. cbn [length]. lia.
+Qed.
+
+Fixpoint no_byte (m : N) (s : str) : bool := match s with [] => true | x :: t => negb (x =? m) && no_byte m t end.
+
+Lemma find_byte_none m s r i : no_byte m s = true -> find_byte m (s ++ m :: r) i = Some (i + len s).
+Proof.
+  revert i. induction s as [|x s IH]; intros i H.
+  - cbn [app find_byte]. rewrite N.eqb_refl. f_equal. unfold len. cbn. lia.
+  - cbn [no_byte] in H. apply andb_true_iff in H. destruct H as [Hx Hs]. cbn [app find_byte].
+    destruct (x =? m); [discriminate|]. rewrite IH by exact Hs. f_equal. unfold len. cbn [length]. lia.
+Qed.
+
+Lemma find_byte_none_rep m s j r i : no_byte m s = true -> (1 <= j)%nat ->
+  find_byte m (s ++ repeatN m j ++ r) i = Some (i + len s).
+Proof. intros H Hj. destruct j as [|j]; [lia|]. cbn [repeatN app]. apply find_byte_none. exact H. Qed.
+
+Lemma byte_split m s : no_byte m s = true \/ exists a b, s = a ++ m :: b /\ no_byte m a = true.
+Proof.
+  induction s as [|x s IH]; [left; reflexivity|].
+  destruct (x =? m) eqn:E.
+  - right. exists [], s. split; [cbn [app]; f_equal; lia|reflexivity].
+  - destruct IH as [IH|(a & b & -> & Ha)].
+    + left. cbn [no_byte]. rewrite E, IH. reflexivity.
+    + right. exists (x :: a), b. split; [reflexivity|]. cbn [no_byte]. rewrite E, Ha. reflexivity.
+Qed.
+
+(* UTF-8: no continuation byte follows a marker byte (true of every valid UTF-8 string, the marker being ASCII) *)
+Fixpoint no_cont_after (m : N) (s : str) : bool :=
+  match s with
+  | x :: t => (match t with y :: _ => negb (x =? m) || negb (is_cont y) | [] => true end) && no_cont_after m t
+  | [] => true
+  end.
+
+Lemma no_cont_after_suffix m a b : no_cont_after m (a ++ b) = true -> no_cont_after m b = true.
+Proof.
+  induction a as [|x a IH]; intros H; [exact H|].
+  cbn [app no_cont_after] in H. apply andb_true_iff in H. destruct H as [_ H]. apply IH; exact H.
+Qed.
+
+Lemma no_cont_after_head m y t : no_cont_after m (m :: y :: t) = true -> is_cont y = false.
+Proof. cbn [no_cont_after]. rewrite N.eqb_refl. cbn [negb orb]. intros H. apply andb_true_iff in H. destruct H as [H _]. destruct (is_cont y); [discriminate|reflexivity]. Qed.
+
+Definition starts_clean (s : str) : Prop := match s with y :: _ => is_cont y = false | [] => True end.
+
+(* &s[a..b] for a decomposition of s *)
+Lemma slice_mid (a b c : str) : starts_clean (b ++ c) -> starts_clean c ->
+  slice (a ++ b ++ c) (len a) (len a + len b) = inr b.
+Proof.
+  intros Hb Hc. unfold slice.
+  assert (B1 : is_boundary (a ++ b ++ c) (len a) = true).
+  { unfold is_boundary. destruct (len a =? 0); [reflexivity|]. rewrite dropN_len_app.
+    destruct (b ++ c) as [|y t] eqn:E; [|cbn in Hb; rewrite Hb; reflexivity].
+    apply app_eq_nil in E. destruct E as [-> ->]. rewrite !app_nil_r. lia. }
+  assert (B2 : is_boundary (a ++ b ++ c) (len a + len b) = true).
+  { unfold is_boundary. destruct (len a + len b =? 0); [reflexivity|].
+    rewrite app_assoc. rewrite <- len_app. rewrite dropN_len_app.
+    destruct c as [|y t]; [rewrite app_nil_r; lia|cbn in Hc; rewrite Hc; reflexivity]. }
+  rewrite B1, B2. rewrite !len_app.
+  replace ((len a <=? len a + len b) && (len a + len b <=? len a + (len b + len c))) with true by lia. cbn [andb].
+  unfold sub. rewrite dropN_len_app. replace (len a + len b - len a) with (len b) by lia. rewrite takeN_len_app. reflexivity.
+Qed.
+
+Lemma length_repeatN m j : length (repeatN m j) = j.
+Proof. induction j as [|j IH]; [reflexivity|cbn; f_equal; exact IH]. Qed.
+
+Lemma repeatN_head m j : (1 <= j)%nat -> repeatN m j = m :: repeatN m (j - 1).
+Proof. destruct j as [|j]; [lia|]. intros _. cbn. replace (j - 0)%nat with j by lia. reflexivity. Qed.
+
+Lemma strip_len (c : str) :
+  match c with 32 :: l => match rev (32 :: l) with 32 :: _ => 2 <? len c | _ => false end | _ => false end = true -> 2 < len c.
+Proof. intros H. hinv H. lia. Qed.
+
+Section Span.
+Variable st : istate.
+Variables (m : N) (k : nat) (before T tail after : str).
+
+Let K := N.of_nat k.
+Let pos := i_pos st.
+Let closer := repeatN m k.
+
+Hypothesis Hm : m < 128.
+Hypothesis Hk : (1 <= k)%nat.
+(* the text being parsed: ... opener payload closer tail | (after: beyond pos_max) *)
+Hypothesis Hsrc : i_src st = before ++ (closer ++ T ++ closer ++ tail) ++ after.
+Hypothesis Hpos : i_pos st = len before.
+Hypothesis Hmax : i_max st = len before + len (closer ++ T ++ closer ++ tail).
+Hypothesis Hafter : starts_clean after.
+Hypothesis Htailc : starts_clean (tail ++ after).
+(* the payload: not empty, neither starts nor ends with the marker, every run of the marker shorter than k *)
+Hypothesis HT0 : match T with x :: _ => (x =? m) = false | [] => False end.
+Hypothesis HTl : last_not m T.
+Hypothesis Hruns : iruns_lt m K T = true.
+Hypothesis Hutf : starts_clean T /\ no_cont_after m T = true.
+(* what follows the closer is not the marker; the text before the opener does not end with it *)
+Hypothesis Htail : match tail with x :: _ => (x =? m) = false | [] => True end.
+Hypothesis Htrail : match rev (trailing_text_get st) with x :: _ => (x =? m) = false | [] => True end.
+(* the closer cache does not claim that no closer of this length follows *)
+Hypothesis Hcache : (fst (get_bt st m) && (nth (N.to_nat K) (snd (get_bt st m)) 0 <=? pos)) = false.
+(* the mapping table starts at offset 0 (true of every inline root) *)
+Hypothesis Hmap : exists p0 t, i_map st = (0, p0) :: t.
+
+Lemma m_not_cont : is_cont m = false.
+Proof. clear - Hm. unfold is_cont. lia. Qed.
+
+Lemma closer_clean r : starts_clean (closer ++ r).
+Proof. unfold closer. destruct k as [|k']; [lia|]. cbn. exact m_not_cont. Qed.
+
+Lemma len_closer : len closer = K.
+Proof. unfold closer, K, len. f_equal. apply length_repeatN. Qed.
+
+(* src[x..pos_max] for x inside the region *)
+Lemma isl_from (u v : str) : closer ++ T ++ closer ++ tail = u ++ v -> starts_clean (v ++ after) ->
+  isl st (pos + len u) (i_max st) = inr v.
+Proof.
+  intros E Hv. unfold isl. rewrite Hsrc, Hmax, E. unfold pos. rewrite Hpos.
+  replace (before ++ (u ++ v) ++ after) with ((before ++ u) ++ v ++ after) by (rewrite <- !app_assoc; reflexivity).
+  rewrite <- len_app. replace (len before + len (u ++ v)) with (len (before ++ u) + len v) by (rewrite !len_app; lia).
+  apply slice_mid; assumption.
+Qed.
+
+Lemma source_pos_ok p : exists q, source_pos_for st p = inr q.
+Proof.
+  destruct Hmap as (p0 & t & E). unfold source_pos_for. rewrite E. cbn [last_entry fst].
+  replace (0 <=? p) with true by lia.
+  assert (H : forall l cur, exists e, last_entry l p (Some cur) = Some e).
+  { induction l as [|e l IH]; intros cur; cbn [last_entry]; [eexists; reflexivity|]. destruct (fst e <=? p); [apply IH|eexists; reflexivity]. }
+  destruct (H t (0, p0)) as [[k0 q0] ->]. eexists. reflexivity.
+Qed.
+
+Lemma iget_map_ok a b : a <= b -> exists r, iget_map st a b = inr r.
+Proof.
+  intros H. unfold iget_map. replace (a <=? b) with true by lia.
+  destruct (source_pos_ok a) as [x ->]. destruct (source_pos_ok b) as [y ->]. eexists. reflexivity.
+Qed.
+
+(* the scan from any point of the payload reaches the closer *)
+Lemma scan_finds : forall fuel b a maxv, T = a ++ b -> (length b < fuel)%nat -> starts_clean (b ++ closer) ->
+  exists mv, code_scan fuel st m K (pos + K + len a) maxv = inr (Some (pos + K + len T, pos + K + len T + K), mv).
+Proof.
+  induction fuel as [|fuel IH]; intros b a maxv ET Hf Hb; [lia|].
+  cbn [code_scan].
+  assert (Hisl : isl st (pos + K + len a) (i_max st) = inr (b ++ closer ++ tail)).
+  { replace (pos + K + len a) with (pos + len (closer ++ a)) by (rewrite len_app, len_closer; lia).
+    apply isl_from; [rewrite ET, <- !app_assoc; reflexivity|].
+    destruct b as [|y b']; [cbn [app]; rewrite <- app_assoc; apply closer_clean|exact Hb]. }
+  rewrite Hisl. cbn [bind ret].
+  assert (Hruns_b : iruns_lt m K b = true) by (apply (iruns_lt_suffix m K a); rewrite <- ET; exact Hruns).
+  destruct (byte_split m b) as [Hnone|(b1 & b2 & Eb & Hb1)].
+  - (* no marker left in the payload: the next run is the closer *)
+    unfold closer at 1. rewrite find_byte_none_rep by (try exact Hnone; exact Hk). fold closer.
+    replace (0 + len b) with (len b) by lia. rewrite dropN_len_app.
+    unfold closer. rewrite count_run_repeat by exact Htail. fold K. rewrite N.eqb_refl.
+    exists maxv. unfold ret. rewrite ET, len_app. replace (pos + K + (len a + len b)) with (pos + K + len a + len b) by lia. reflexivity.
+  - (* a run inside the payload: shorter than the opener, skipped *)
+    rewrite Eb, <- app_assoc. cbn [app]. rewrite find_byte_none by exact Hb1.
+    replace (0 + len b1) with (len b1) by lia.
+    replace (b1 ++ m :: b2 ++ closer ++ tail) with (b1 ++ (m :: b2) ++ closer ++ tail) by reflexivity.
+    rewrite dropN_len_app.
+    assert (Hl2 : last_not m (m :: b2)).
+    { apply (last_not_suffix m (a ++ b1)); [discriminate|]. rewrite <- app_assoc. cbn [app]. rewrite <- Eb, <- ET. exact HTl. }
+    destruct (count_run_app m (m :: b2) (closer ++ tail)) as [Hr1 Hr2]; [discriminate|exact Hl2|].
+    rewrite Hr1.
+    assert (Hlt : count_run m (m :: b2) < K).
+    { rewrite Eb in Hruns_b. apply (iruns_lt_suffix m K b1) in Hruns_b.
+      cbn [iruns_lt] in Hruns_b. apply andb_true_iff in Hruns_b. destruct Hruns_b as [H _]. lia. }
+    replace (count_run m (m :: b2) =? K) with false by lia.
+    destruct (count_run_split m (m :: b2)) as (r & Er & Hr0).
+    set (run := count_run m (m :: b2)) in *.
+    assert (Hrun1 : 1 <= run) by (unfold run; cbn [count_run]; rewrite N.eqb_refl; lia).
+    (* the rest of the payload after the run *)
+    assert (Hrne : r <> []).
+    { intros ->. rewrite app_nil_r in Er. apply (f_equal len) in Er. unfold len in Er at 2.
+      pose proof (length_repeatN m (N.to_nat run)). lia. }
+    assert (Hlenrun : len (repeatN m (N.to_nat run)) = run).
+    { unfold len. pose proof (length_repeatN m (N.to_nat run)). lia. }
+    destruct (IH r (a ++ b1 ++ repeatN m (N.to_nat run))
+                (setN (extend_to maxv (S (N.to_nat run))) (N.to_nat run) (pos + K + len a + len b1))) as [mv Hmv].
+    + rewrite ET, Eb, Er, <- !app_assoc. reflexivity.
+    + pose proof (f_equal (@length N) Er) as El. rewrite app_length, length_repeatN in El. rewrite Eb, app_length in Hf. lia.
+    + (* the byte after a run is not a continuation byte *)
+      destruct r as [|y r']; [congruence|]. cbn [app starts_clean].
+      destruct Hutf as [_ Hnc]. rewrite ET, Eb in Hnc.
+      destruct (N.to_nat run) as [|j] eqn:Ej; [lia|].
+      assert (Hshape : a ++ b1 ++ m :: b2 = (a ++ b1 ++ repeatN m j) ++ m :: y :: r').
+      { rewrite Er. rewrite <- !app_assoc. f_equal. f_equal. clear. induction j as [|j IHj]; [reflexivity|]. cbn [repeatN app]. f_equal. exact IHj. }
+      rewrite Hshape in Hnc. apply no_cont_after_suffix in Hnc. apply (no_cont_after_head m y r'). exact Hnc.
+    + exists mv. rewrite <- Hmv. f_equal. rewrite !len_app, Hlenrun. lia.
+Qed.
+
+Theorem code_span_verbatim :
+  exists mv rng rng2,
+  rule_code_pair st m false =
+    inr (ipush (set_bt st m (fst (get_bt st m), mv))
+           (mk (KCodeInline m K) rng [mk (KText (span_text T)) rng2 []]), Some (K + len T + K)).
+Proof.
+  unfold rule_code_pair. unfold irest.
+  assert (Hrest : isl st (i_pos st) (i_max st) = inr (closer ++ T ++ closer ++ tail)).
+  { replace (i_pos st) with (pos + len (@nil N)) by (unfold pos, len; cbn; lia).
+    apply isl_from; [reflexivity|]. rewrite <- app_assoc. apply closer_clean. }
+  rewrite Hrest. cbn [bind ret].
+  assert (HT0' : match T ++ closer ++ tail with x :: _ => (x =? m) = false | [] => True end).
+  { destruct T as [|x T']; [contradiction|exact HT0]. }
+  pose proof (count_run_repeat m k (T ++ closer ++ tail) HT0') as Hcr. fold closer in Hcr. fold K in Hcr.
+  pose proof (repeatN_head m k Hk) as Hcl. fold closer in Hcl.
+  assert (Erest : closer ++ T ++ closer ++ tail = m :: (repeatN m (k - 1) ++ T ++ closer ++ tail)).
+  { rewrite Hcl at 1. reflexivity. }
+  rewrite Erest.
+  rewrite N.eqb_refl. cbn [negb].
+  destruct (match rev (trailing_text_get st) with x :: _ => x =? m | [] => false end) eqn:Etr.
+  { destruct (rev (trailing_text_get st)); [discriminate|congruence]. }
+  rewrite <- Erest, Hcr.
+  rewrite (surjective_pairing (get_bt st m)). fold pos. rewrite Hcache.
+  set (scanned := fst (get_bt st m)). set (maxv := snd (get_bt st m)).
+  destruct (scan_finds (S (length (closer ++ T ++ closer ++ tail))) T [] maxv) as [mv Hscan].
+  - reflexivity.
+  - rewrite !app_length. lia.
+  - destruct Hutf as [Hc _]. destruct T as [|x T']; [contradiction|exact Hc].
+  - replace (pos + K + len (@nil N)) with (pos + K) in Hscan by (unfold len; cbn; lia).
+    rewrite Hscan. cbn [bind ret fst snd].
+    assert (Hraw : isl st (pos + K) (pos + K + len T) = inr T).
+    { unfold isl. rewrite Hsrc. unfold pos. rewrite Hpos.
+      replace (before ++ (closer ++ T ++ closer ++ tail) ++ after) with ((before ++ closer) ++ T ++ (closer ++ tail ++ after))
+        by (rewrite <- !app_assoc; reflexivity).
+      replace (len before + K) with (len (before ++ closer)) by (rewrite len_app, len_closer; reflexivity).
+      apply slice_mid; [|apply closer_clean]. destruct Hutf as [Hc _]. destruct T as [|x T']; [contradiction|exact Hc]. }
+    rewrite Hraw. cbn [bind ret].
+    destruct (iget_map_ok pos (pos + K + len T + K)) as [rng Hrng]; [lia|]. rewrite Hrng. cbn [bind ret].
+    unfold span_text. cbv zeta.
+    assert (Hlm : len (map (fun b : N => if b =? 10 then 32 else b) T) = len T) by (unfold len; rewrite map_length; reflexivity).
+    remember (match map (fun b : N => if b =? 10 then 32 else b) T with
+              | 32 :: l => match rev (32 :: l) with 32 :: _ => 2 <? len (map (fun b : N => if b =? 10 then 32 else b) T) | _ => false end
+              | _ => false end) as strip eqn:Es.
+    destruct strip.
+    + symmetry in Es. apply strip_len in Es. rewrite Hlm in Es.
+      destruct (iget_map_ok (pos + K + 1) (pos + K + len T - 1)) as [mi Hmi]; [lia|]. rewrite Hmi. cbn [bind ret].
+      exists mv, rng, mi. replace (pos + K + len T + K - pos) with (K + len T + K) by lia. reflexivity.
+    + destruct (iget_map_ok (pos + K) (pos + K + len T)) as [mi Hmi]; [lia|]. rewrite Hmi. cbn [bind ret].
+      exists mv, rng, mi. replace (pos + K + len T + K - pos) with (K + len T + K) by lia. reflexivity.
+Qed.
+
+End Span.
